@@ -17,6 +17,7 @@ pub struct OutTrait {
     pub generics: TraitGenerics,
     pub ident: syn::Ident,
     pub supertraits: trait_codegen::Supertraits,
+    pub associated_types: Vec<syn::TraitItemType>,
     pub fns: Vec<TraitFn>,
 }
 
@@ -75,6 +76,7 @@ pub fn analyze_trait(item_trait: syn::ItemTrait) -> syn::Result<OutTrait> {
                 .unwrap_or_default(),
         },
         supertraits,
+        associated_types,
         fns,
     })
 }
